@@ -217,9 +217,25 @@ def r3_index_refresh(chk):
             for c in m.cases:
                 for lit in [p.value.value for p in ast.walk(c.pattern) if isinstance(p, ast.MatchValue) and isinstance(p.value, ast.Constant)]:
                     arms[lit] = c
+    # what open() runs when it is asked for mode "r" / "a": the body specialised for that mode (a `match self.mode`, an if / else
+    # on `mode`, a table of stream flags all read alike).  Inside open() `self.mode` is the requested mode once it has been
+    # stored (the sessions always pass one), so it is read as the parameter.
+    import copy as _copy
+
+    from ..canon import specialize
+
+    class _ModeIsParam(ast.NodeTransformer):
+        def visit_Attribute(self, n):
+            if isinstance(n.ctx, ast.Load) and norm(n) == "self.mode":
+                return ast.copy_location(ast.Name("mode", ast.Load()), n)
+            return self.generic_visit(n)
+
+    body_m = [_ModeIsParam().visit(_copy.deepcopy(s_)) for s_ in opn.node.body]
     for mode in ("r", "a"):
         c = arms.get(mode)
-        ok = c is not None and any(has_call(s, {"self.map_blocks"}) for s in c.body) and any(has_call(s, {"self.read_header"}) for s in c.body)
+        spec = specialize(body_m, "mode", mode, {})
+        calls_m = {nm for s_ in spec for nm in ("self.map_blocks", "self.read_header") if has_call(s_, {nm})}
+        ok = calls_m == {"self.map_blocks", "self.read_header"}
         chk.decide(ok, "C04.R3", f"{opn.key}:arm-{mode}-maps-blocks", opn.where(c.pattern if c else None),
                    "reads the header and re-maps the blocks (index refreshed under the lock)",
                    f"UKVFile.open mode {mode!r} does not call map_blocks: a session would run on a stale index")
